@@ -143,3 +143,27 @@ Theorem C04_SGal3_minus_plus eps (Heps : 0 < eps) X Y px py pz x y z w vx vy vz 
 Proof. exact (sg_minus_plus eps Heps X Y px py pz x y z w vx vy vz t). Qed.
 Print Assumptions C04_SGal3_plus_minus.
 Print Assumptions C04_SE3_minus_plus.
+
+(* Bundles: the round trips hold on a Bundle as soon as its elements have the C01 laws (BundleGroup.Bundle_core is a GroupCore,
+   so C04_rplus_rminus ... apply) and C03 holds at the relative element; discharged for EVERY valid X of Bundle<SO3, R3, SE3>
+   and every tangent whose rotations are below pi on the closed-form branches (BundleRoundTrip, BundleLogExp, BundleCoreValid). *)
+From Manif Require Import Bundle BundleProofs BundleLaws BundleInst BundleCore BundleGroup BundleLogExp BundleCoreValid BundleRoundTrip.
+Theorem C04_Bundle_SO3_R3_SE3_plus_minus eps (H : 0 < eps) X x y z p q r a b c u v w :
+  gc_valid (C3 eps H) X -> rot_ok eps x y z -> rot_ok eps u v w ->
+  fst (fst (rminus (Bundle (L3 eps)) (fst (fst (rplus (Bundle (L3 eps)) X (tan3 x y z p q r a b c u v w) false false))) X false false))
+  = tan3 x y z p q r a b c u v w.
+Proof. exact (bundle3_rplus_rminus eps H X x y z p q r a b c u v w). Qed.
+Theorem C04_Bundle_SO3_R3_SE3_lplus_lminus eps (H : 0 < eps) X x y z p q r a b c u v w :
+  gc_valid (C3 eps H) X -> rot_ok eps x y z -> rot_ok eps u v w ->
+  fst (fst (lminus (Bundle (L3 eps)) (fst (fst (lplus (Bundle (L3 eps)) X (tan3 x y z p q r a b c u v w) false false))) X false false))
+  = tan3 x y z p q r a b c u v w.
+Proof. exact (bundle3_lplus_lminus eps H X x y z p q r a b c u v w). Qed.
+(* what "valid" means for the Bundle's GroupCore: a concatenation of valid elements *)
+Theorem C04_Bundle_core_valid (LG : list PackedG) (dG : PackedG) X :
+  gc_valid (Bundle_core LG dG) X <->
+  bvalid RS (map p_G (map m_pack (map g_m LG))) (fun i X => gc_valid (p_core (nth i (map m_pack (map g_m LG)) (m_pack (g_m dG)))) X) X.
+Proof. exact (Bundle_core_valid LG dG X). Qed.
+Example C04_Bundle_nonvacuous eps (H : 0 < eps) : gc_valid (C3 eps H) (g_identity (Bundle (L3 eps))).
+Proof. exact (C3_identity_valid eps H). Qed.
+Print Assumptions C04_Bundle_SO3_R3_SE3_plus_minus.
+Print Assumptions C04_Bundle_core_valid.
